@@ -540,8 +540,9 @@ func applyPush(ctx Context, doc bsonkit.Doc, name, path string, v interface{}) e
 	}
 
 	// no-op if neither the array contents nor its length changed (e.g. empty
-	// $each with no other modifiers): skip the change record entirely
-	if len(values) == 0 && !hasPosition && !hasSort && !hasSlice {
+	// $each with no other modifiers): skip the change record entirely, unless
+	// the push has just created the (empty) array
+	if len(values) == 0 && !hasPosition && !hasSort && !hasSlice && field != bsonkit.Missing {
 		return nil
 	}
 
